@@ -775,7 +775,7 @@ class World(object):
             qos = sel % 3
             retain, dup = bool(x & 1), bool(x & 2)
             topic = TOPICS[(x >> 2) & 3]
-            size = [0, 1, 100, 200, 20000, 100000, 3, 17][(x >> 4) & 7]
+            size = [0, 1, 100, 200, 20000, 100000, 3, 2100000 if self.cfg.get("big") else 17][(x >> 4) & 7]
             pid = None
             self.in_seq += 1
             payload = ("<%06d>" % self.in_seq).encode() + b"q" * size
